@@ -136,3 +136,30 @@ def layout_ok(before, after, target, repacked=False):
         if n < len(ids) - 1 and len(pa) < target:
             return False
     return True
+
+
+def chunked_ok(c, w, objs):
+    """C01 "in chunks": read(1), read(65536), read() on the stream of every object, singly and through the bulk API"""
+    for k in objs:
+        i, size = objs[k]
+        want = w.content(i, size)
+        with c.get_object_stream_and_meta(k) as (s, meta):
+            if meta.size != size:
+                return False
+            a = s.read(1)
+            b = s.read(65536)
+            rest = s.read()
+            if not (a == want[:1]) or not (b == want[1:65537]) or not (rest == want[65537:]):
+                return False
+            if not (s.read(10) == want[size:]):
+                return False
+    with c.get_objects_stream_and_meta(list(objs)) as triplets:
+        n = 0
+        for k, s, meta in triplets:
+            i, size = objs[k]
+            n += 1
+            if not (s.read(65536) == w.content(i, size)[:65536]):
+                return False
+        if n != len(objs):
+            return False
+    return True
